@@ -3,7 +3,7 @@ C12 tool level: the CLI tools (un-sanitized builds of the working tree) under ha
 short counts / EINTR / byte-at-a-time on read, write, pread, pwrite) and a pipe feeder / slow drain; the sha256 of
 the image / archive / unpacked tree / stdout and the exit status must equal the unperturbed run's.
 """
-import fcntl, gzip, hashlib, io, os, random, shutil, socket, stat, subprocess, tarfile, threading, time
+import fcntl, gzip, hashlib, io, os, random, re, shutil, socket, stat, subprocess, tarfile, threading, time
 import vlib
 
 TOOLS = ["gensquashfs", "tar2sqfs", "sqfs2tar", "rdsquashfs"]
@@ -121,6 +121,11 @@ def make_inputs(work, rng):
         (src / n).write_bytes(body)
         os.chmod(src / n, rng.choice([0o644, 0o600, 0o755]))
         names.append(n)
+    # one file that certainly compresses (several blocks and a tail end): its blocks carry a check sum, which the
+    # damaged-image scenarios rely on (blocks stored uncompressed have none)
+    n = os.path.join("d1", "zz compressible.bin")
+    (src / n).write_bytes(b"".join(b"line %07d of a file that compresses well\n" % i for i in range(7000)))
+    names.append(n)
     os.symlink("d1/deep dir", src / "link1")
     os.symlink("/" + "t" * 200, src / "d1" / "longlink")
     for dp, dn, fn in os.walk(src):
@@ -249,7 +254,67 @@ def run_tool(argv, env, stdin_path=None, feed_chunk=0, stdout_path=None, drain_c
     for f in (fin, fout, sout):
         if f:
             f.close()
+    LAST_STDERR[0] = errbuf[0].decode("utf8", "replace") if errbuf else ""
     return rc, (errbuf[0][-600:].decode("utf8", "replace") if errbuf else "")
+
+
+LAST_STDERR = [""]        # complete stderr of the last run_tool call (tool runs are sequential)
+
+
+def diag_class(text, work):
+    """the diagnostics of a run as a caller sees them: the set of stderr lines, with the scratch directory and the name of
+    the output of this run replaced (line numbers, member names, error texts stay)"""
+    t = text.replace(str(work), "$W")
+    t = re.sub(r"out_(base|pert|keep)", "out", t)
+    return sorted(set(l.rstrip() for l in t.splitlines() if l.strip()))
+
+
+def make_bad_inputs(work, rng):
+    """inputs on which the tools must fail: truncated / damaged archives, a pack file with an error on a late line, an image
+    with a damaged data block.  What a run leaves behind in its output is not compared for these (a partial image or tree),
+    the exit status and the diagnostics are."""
+    pax = (work / "in_pax.tar").read_bytes()
+    gz = (work / "in_pax.tar.gz").read_bytes()
+    (work / "bad_trunc.tar").write_bytes(pax[:len(pax) * 2 // 3 + rng.randint(0, 300)])          # ends inside a member
+    (work / "bad_trunc.tar.gz").write_bytes(gz[:len(gz) - rng.choice([1, 4, 8, 9, 1000])])        # compressed stream cut short
+    b = bytearray(gz)
+    pos = len(b) - rng.choice([3, 6, 7])                                                           # CRC32 / ISIZE trailer: only the drain sees it
+    b[pos] ^= 0x55
+    (work / "bad_crc.tar.gz").write_bytes(bytes(b))
+    b = bytearray(gz)
+    pos = len(b) // 2 + rng.randint(0, 2000)
+    b[pos] ^= 0xFF                                                                                 # damage inside the deflate data
+    (work / "bad_data.tar.gz").write_bytes(bytes(b))
+    gnu = bytearray((work / "in_gnu.tar").read_bytes())
+    # second header block of the archive that starts a member: break its checksum
+    offs, pos = [], 0
+    while pos + 512 <= len(gnu) and any(gnu[pos:pos + 512]):
+        offs.append(pos)
+        size = int(bytes(gnu[pos + 124:pos + 135]).strip(b"\0 ") or b"0", 8)
+        pos += 512 + (size + 511) // 512 * 512
+    k = offs[min(len(offs) - 1, max(1, len(offs) * 2 // 3))]
+    gnu[k + 150] = (gnu[k + 150] ^ 1) if gnu[k + 150] not in (0, 32) else ord("7")
+    (work / "bad_header.tar").write_bytes(bytes(gnu))
+    lines = (work / "list.txt").read_bytes().split(b"\n")
+    at = len(lines) * 3 // 4
+    lines.insert(at, b"   frobnicate /gen/what 0644 0 0  \r")
+    (work / "bad_list.txt").write_bytes(b"\n".join(lines))
+    img = bytearray((work / "base.sqfs").read_bytes())
+    # somewhere in the data area (behind the super block, well in front of the tables at the end): a damaged block
+    # (data and fragment blocks lie between the super block and the inode table, whose start is at offset 64 of the super
+    # block; stored-uncompressed blocks have no check sum, so the whole area is damaged: files of random bytes still
+    # unpack, the first compressed block fails)
+    itab = int.from_bytes(img[64:72], "little")
+    if not 200 < itab <= len(img):
+        raise vlib.CheckFailure("base image: implausible inode table start %d" % itab)
+    for i in range(104, itab):
+        img[i] ^= 0xA5
+    (work / "bad_block.sqfs").write_bytes(bytes(img))
+    orig = (work / "base.sqfs").read_bytes()
+    used = int.from_bytes(orig[40:48], "little")                                                  # bytes_used of the super block
+    if not 200 < used <= len(orig):
+        raise vlib.CheckFailure("base image: implausible bytes_used %d" % used)
+    (work / "bad_trunc.sqfs").write_bytes(orig[:used - 3])                                        # the last table is cut
 
 
 def scenarios(work, bins, names):
@@ -270,6 +335,16 @@ def scenarios(work, bins, names):
     big = max(names, key=lambda n: os.path.getsize(work / "src" / n))
     S["rdsquashfs-cat"] = dict(argv=lambda out: [str(bins["rdsquashfs"]), "-c", "/" + big, img], kind="stdout")
     S["rdsquashfs-describe"] = dict(argv=lambda out: [str(bins["rdsquashfs"]), "-d", img], kind="stdout")
+    # ---- inputs on which the tool must fail: exit status and diagnostics must not depend on the chunking
+    t2s = lambda out: [str(bins["tar2sqfs"]), "-q", "-f", out]
+    for nm, f in (("tar2sqfs-bad-truncated", "bad_trunc.tar"), ("tar2sqfs-bad-gz-truncated", "bad_trunc.tar.gz"),
+                  ("tar2sqfs-bad-gz-crc", "bad_crc.tar.gz"), ("tar2sqfs-bad-gz-data", "bad_data.tar.gz"),
+                  ("tar2sqfs-bad-header", "bad_header.tar")):
+        S[nm] = dict(argv=t2s, stdin=str(work / f), kind="file", fails=True)
+    S["gensquashfs-bad-packfile"] = dict(argv=lambda out: [str(bins["gensquashfs"]), "--pack-file", str(work / "bad_list.txt"), "--pack-dir", str(work / "src"), "-q", "-f", out], kind="file", fails=True)
+    S["sqfs2tar-bad-block"] = dict(argv=lambda out: [str(bins["sqfs2tar"]), str(work / "bad_block.sqfs")], kind="stdout", fails=True)
+    S["rdsquashfs-bad-block"] = dict(argv=lambda out: [str(bins["rdsquashfs"]), "-q", "-u", "/", "-p", out, str(work / "bad_block.sqfs")], kind="tree", fails=True)
+    S["rdsquashfs-bad-truncated"] = dict(argv=lambda out: [str(bins["rdsquashfs"]), "-q", "-u", "/", "-p", out, str(work / "bad_trunc.sqfs")], kind="tree", fails=True)
     return S
 
 
@@ -285,7 +360,15 @@ def run_scenario(work, sc, env, tag, feed_chunk=0, drain_chunk=0, rng=None, sock
     rc, err = run_tool(argv, env, stdin_path=sc.get("stdin"), feed_chunk=feed_chunk if sc.get("stdin") else 0,
                        stdout_path=out if sc["kind"] == "stdout" else None,
                        drain_chunk=drain_chunk if sc["kind"] == "stdout" else 0, rng=rng, sock=sock)
-    if sc["kind"] == "tree":
+    if sc.get("fails"):
+        # a failing run: what it leaves behind (partial image / archive / tree) is not part of the comparison; the exit
+        # status and the diagnostics are
+        digest = "diag:" + vlib.sha("\n".join(diag_class(LAST_STDERR[0], work)))[:16]
+        if sc["kind"] == "tree":
+            shutil.rmtree(out, ignore_errors=True)
+        elif os.path.exists(out):
+            os.unlink(out)
+    elif sc["kind"] == "tree":
         digest = tree_hash(out)
         shutil.rmtree(out, ignore_errors=True)
     else:
@@ -298,8 +381,9 @@ def run_scenario(work, sc, env, tag, feed_chunk=0, drain_chunk=0, rng=None, sock
 CONFIGS = [
     {"VERIF_IO_SHORT": "300", "VERIF_IO_EINTR": "100"},
     {"VERIF_IO_MAXCHUNK": "1"},
-    # EINTR runs far beyond any plausible retry cap: ~98 % of the calls are interrupted, up to 400 times in a row
-    {"VERIF_IO_EINTR": "985", "VERIF_IO_EINTR_BURST": "400", "VERIF_IO_SHORT": "200"},
+    # EINTR runs far beyond any plausible retry cap: 99.7 % of the calls are interrupted, up to 1500 times in a row (a run is
+    # longer than 400 with probability 0.997^400 = 30 %, reaches 1500 with 1 %)
+    {"VERIF_IO_EINTR": "997", "VERIF_IO_EINTR_BURST": "1500", "VERIF_IO_SHORT": "200"},
     {"VERIF_IO_SHORT": "900", "VERIF_IO_EINTR": "500", "VERIF_IO_MAXCHUNK": "7"},
     {"VERIF_IO_EINTR": "900"},
     {"VERIF_IO_SHORT": "1000"},
@@ -340,6 +424,7 @@ def run(ctx, seed=None, only=None, nper=None):
     rc, err = run_tool([str(bins["gensquashfs"]), "--pack-dir", str(src), "--all-root", "-d", "mtime=0", "-q", "-f", str(work / "base.sqfs")], base_env)
     if rc != 0:
         raise vlib.CheckFailure("cannot build the base image: rc=%s %s" % (rc, err))
+    make_bad_inputs(work, rng)
     if nper is None:
         nper = 3 if ctx.quick() else 12
     results, skipped, agg = [], [], {}
@@ -348,7 +433,13 @@ def run(ctx, seed=None, only=None, nper=None):
             continue
         b1 = run_scenario(work, sc, base_env, "base")
         b2 = run_scenario(work, sc, base_env, "base")
-        if b1[0] != 0 or b1[1] == "absent":
+        if sc.get("fails"):
+            ctx.log("tool level, damaged input %s: unperturbed exit %s, diagnostics %s" % (name, b1[0], diag_class(LAST_STDERR[0], work)[-3:]))
+            if b1[0] in (0, "timeout") or (isinstance(b1[0], int) and b1[0] < 0) or not LAST_STDERR[0].strip():
+                # the input is meant to be refused with a diagnostic: anything else compares nothing
+                raise vlib.CheckFailure("tool scenario %s: the unperturbed run on a damaged input did not fail with a diagnostic (exit %s): %s" % (
+                    name, b1[0], b1[2][-400:]))
+        elif b1[0] != 0 or b1[1] == "absent":
             # a scenario whose unperturbed run fails compares nothing: failure of the check, not a pass
             raise vlib.CheckFailure("tool scenario %s: the unperturbed run failed (exit %s, output %s): %s" % (name, b1[0], b1[1], b1[2][-400:]))
         if b1[:2] != b2[:2]:
@@ -361,7 +452,12 @@ def run(ctx, seed=None, only=None, nper=None):
             for i in range(nper):
                 # every scenario sees the mixed config, byte-at-a-time and the long EINTR runs in the quick tier; more in thorough
                 cfg = CONFIGS[(rng.randrange(len(CONFIGS)) if i >= 3 else (i + list(S).index(name)) % 3)]
-                runs.append((cfg, rng.choice(FEEDS), rng.choice([1, 13, 4096]), rng.randrange(1 << 30), rng.random() < 0.35))
+                feed, drain = rng.choice(FEEDS), rng.choice([1, 13, 4096])
+                if (i + list(S).index(name)) % 3 == 1 or (i >= 3 and rng.random() < 0.25):
+                    # stdin redirected from / stdout redirected into a *regular file* (what the tools mostly run with), only
+                    # the shim perturbs: shortcuts that depend on the descriptor type are met under perturbation too
+                    feed = drain = 0
+                runs.append((cfg, feed, drain, rng.randrange(1 << 30), rng.random() < 0.35))
         for cfg, feed, drain, sseed, sock in runs:
             env = dict(base_env)
             env.update(cfg)
@@ -374,13 +470,18 @@ def run(ctx, seed=None, only=None, nper=None):
             fired = sum(agg.get(op, {}).get(k, 0) - before.get(op, {}).get(k, 0) for op in agg for k in ("short", "eintr"))
             results.append({"scenario": name, "config": cfg, "feed": feed, "drain": drain, "shim_seed": sseed, "seed": seed, "sock": sock,
                             "base": b1[:2], "pert": r[:2], "stderr": r[2], "fired": fired, "wall": round(time.time() - t0, 2),
+                            "fails": bool(sc.get("fails")), "stdio": sc["kind"] == "stdout" or bool(sc.get("stdin")),
                             "ok": r[:2] == b1[:2]})
     shutil.rmtree(work, ignore_errors=True)
     if not only:
         # floors: every scenario ran and was really perturbed; every interposed function saw short counts and EINTRs
         quiet = [n for n in S if not any(r["scenario"] == n and r["fired"] > 0 for r in results)]
         dead = [(op, k) for op in ("read", "write", "pread", "pwrite") for k in ("short", "eintr") if agg.get(op, {}).get(k, 0) == 0]
-        if len(results) != len(S) * nper or quiet or dead:
-            raise vlib.CheckFailure("tool level evaluated too little: %d of %d runs, scenarios never perturbed %s, counters at zero %s" % (
-                len(results), len(S) * nper, quiet, dead))
+        regfile = [r for r in results if r["stdio"] and r["feed"] == 0 and r["drain"] == 0 and r["fired"] > 0]
+        piped = [r for r in results if r["stdio"] and (r["feed"] != 0 or r["drain"] != 0) and r["fired"] > 0]
+        nfail = [r for r in results if r["fails"] and r["fired"] > 0]
+        if len(results) != len(S) * nper or quiet or dead or len(regfile) < 5 or len(piped) < 10 or len(nfail) < 9:
+            raise vlib.CheckFailure("tool level evaluated too little: %d of %d runs, scenarios never perturbed %s, counters at zero %s, "
+                                    "%d perturbed runs with regular-file stdin/stdout, %d with pipe/socket, %d on damaged inputs" % (
+                                        len(results), len(S) * nper, quiet, dead, len(regfile), len(piped), len(nfail)))
     return results, agg, skipped
